@@ -7,9 +7,13 @@ import (
 )
 
 func BuildAnnotation(ctx *parser.AnnotationContext) core_domain.CodeAnnotation {
-	annotationName := ctx.QualifiedName().GetText()
 	annotation := core_domain.NewAnnotation()
-	annotation.Name = annotationName
+	// java.lang.@Nullable String: an annotation inside a qualified type name has no qualifiedName child
+	if ctx.QualifiedName() != nil {
+		annotation.Name = ctx.QualifiedName().GetText()
+	} else if ctx.AltAnnotationQualifiedName() != nil {
+		annotation.Name = ctx.AltAnnotationQualifiedName().GetText()
+	}
 	if ctx.ElementValuePairs() != nil {
 		pairs := ctx.ElementValuePairs().(*parser.ElementValuePairsContext).AllElementValuePair()
 		for _, pair := range pairs {
